@@ -433,7 +433,10 @@ class Process(metaclass=abc.ABCMeta):
         Returns:
             The combined schema.
         """
-        ports = copy.deepcopy(self.ports_schema())
+        # deepcopy() keeps a dictionary that declares several variables
+        # ONE dictionary; give every variable its own, so that an
+        # override for one of them is not written into the others
+        ports = deep_copy_internal(copy.deepcopy(self.ports_schema()))
         deep_merge(ports, self.schema_override)
         deep_merge(ports, override)
         return ports
